@@ -331,8 +331,17 @@ func clientFromCache(c *engine.Ctx, r *rand.Rand, cfg *config.Config, evals *int
 			AuthTime: now - 600, StartTime: now - 600, EndTime: end, RenewTill: end, Flags: 0x40e10000, Ticket: ticketBytes(realm, sname, r)}
 	}
 	conf := ccachefmt.Credential{Client: dp, Server: ccachefmt.Principal{Realm: "X-CACHECONF:", Components: []string{"krb5_ccache_conf_data", "pa_type", "krbtgt/R.COM@R.COM"}}, Ticket: []byte("2")}
+	// tickets differ in which optional fields they carry (kvno present / absent), so that state carried from one
+	// decoded ticket to the next would show
+	noKvno := func(c ccachefmt.Credential) ccachefmt.Credential {
+		ct := make([]byte, 33)
+		r.Read(ct)
+		c.Ticket = krbmsg.Ticket{VNO: 5, Realm: c.Server.Realm, SName: krbmsg.PrincipalName{Type: 2, Names: c.Server.Components}, Enc: krbmsg.EncryptedData{EType: 17, Cipher: ct}}.Encode()
+		return c
+	}
 	for v := 1; v <= 4; v++ {
-		creds := []ccachefmt.Credential{mk([]string{"krbtgt", "R.COM"}, "R.COM", now+36000), conf, mk([]string{"HTTP", "a.r.com"}, "R.COM", now+3600), mk([]string{"host", "b.r.com"}, "R.COM", now-10)}
+		creds := []ccachefmt.Credential{mk([]string{"krbtgt", "R.COM"}, "R.COM", now+36000), conf, noKvno(mk([]string{"HTTP", "a.r.com"}, "R.COM", now+3600)), mk([]string{"host", "b.r.com"}, "R.COM", now-10),
+			mk([]string{"cifs", "c.r.com"}, "R.COM", now+7200), noKvno(mk([]string{"ldap", "d.r.com"}, "R.COM", now+7200))}
 		m := ccachefmt.CCache{Version: v, Default: dp, Creds: creds}
 		*evals++
 		rec := map[string]interface{}{"version": v, "what": "NewFromCCache"}
